@@ -218,6 +218,12 @@ impl Prop for C10Prop {
                 // exactly when all bytes are consumed
                 for (k, o) in obs.iter().enumerate() {
                     let want = if k < ends.len() { ends[k] } else { stream.len() };
+                    // the property fixes when a file is handed over (its frame is complete) and when the
+                    // end of input is signalled (all bytes consumed); it does not say at which byte a
+                    // discarded-bytes count has to surface, so that is not asserted
+                    if matches!(o.item, Item::Dec(DErr::Discarded(_))) {
+                        continue;
+                    }
                     if o.pos != want {
                         violation = Some(Violation::oracle(
                             "C10.consumption",
